@@ -95,7 +95,9 @@ impl<R: TokenRewrite> TokenRewriter<R> {
                     new_green_node.push(GreenChild::Node(self.rewrite_node_to_green(node)));
                 }
                 SyntaxElement::Token(tok) => match self.rewrite.token(&tok) {
-                    TokenRewriteAction::Keep => {}
+                    TokenRewriteAction::Keep => {
+                        new_green_node.push(GreenChild::Token(tok.green().clone()));
+                    }
                     TokenRewriteAction::Replace(syntax_token) => {
                         new_green_node.push(GreenChild::Token(syntax_token.green().clone()));
                     }
